@@ -31,11 +31,11 @@ Proof.
   - cbn [skipn]. now apply IH.
 Qed.
 
-Lemma wf_leaf_view a b c : wf 1 1 a b c -> exists es, c = Leaf es /\ seg a b es.
+Lemma wf_leaf_view mn a b c : wf mn 1 a b c -> exists es, c = Leaf es /\ seg a b es.
 Proof. destruct c; cbn; intros H; [exists es; tauto|]. destruct H as [H _]. congruence. Qed.
 
-Lemma wf_node_view h a b c : wf 1 (S (S h)) a b c ->
-  exists nks ncs, c = Node nks ncs /\ 1 <= length nks /\ wfc (wf 1 (S h)) a b nks ncs.
+Lemma wf_node_view mn h a b c : wf mn (S (S h)) a b c ->
+  exists nks ncs, c = Node nks ncs /\ mn <= length nks /\ wfc (wf mn (S h)) a b nks ncs.
 Proof.
   destruct c as [es|nks ncs]; intros H.
   - destruct H; discriminate.
@@ -47,6 +47,11 @@ Section Delete.
   Variable ksz : key -> Z.
   Variable guard : bool.
   Hypothesis d_ge : 4 <= d.
+  (** [mn] = minimum number of keys of an internal node; [mn = 0] (what bulk_load guarantees) is
+      only sound for the code with the single-child guard *)
+  Variable mn : nat.
+  Hypothesis mn_le : mn <= 1.
+  Hypothesis mn_guard : mn = 1 \/ guard = true.
 
   Let half_ge := half_ge d d_ge.
 
@@ -60,11 +65,11 @@ Section Delete.
     end.
 
   Lemma borrow_leaf_left_spec lo hi ks cs j es' :
-    wfc (wf 1 1) lo hi ks cs -> j < length ks -> seg (lob lo ks (S j)) (hib hi ks (S j)) es' ->
+    wfc (wf mn 1) lo hi ks cs -> j < length ks -> seg (lob lo ks (S j)) (hib hi ks (S j)) es' ->
     let cs1 := set_nth (S j) (Leaf es') cs in
     match borrow_leaf_left d ksz ks cs1 (S j) es' with
     | Err e => e = PageOverflow
-    | Ok res => pair_post (wf 1 1) lo hi ks cs1 res
+    | Ok res => pair_post (wf mn 1) lo hi ks cs1 res
     end.
   Proof.
     intros Hw Hj Hs cs1.
@@ -101,11 +106,11 @@ Section Delete.
   Qed.
 
   Lemma borrow_leaf_right_spec lo hi ks cs i es' :
-    wfc (wf 1 1) lo hi ks cs -> i <= length ks -> seg (lob lo ks i) (hib hi ks i) es' ->
+    wfc (wf mn 1) lo hi ks cs -> i <= length ks -> seg (lob lo ks i) (hib hi ks i) es' ->
     let cs1 := set_nth i (Leaf es') cs in
     match borrow_leaf_right d ksz ks cs1 i es' with
     | Err e => e = PageOverflow
-    | Ok res => pair_post (wf 1 1) lo hi ks cs1 res
+    | Ok res => pair_post (wf mn 1) lo hi ks cs1 res
     end.
   Proof.
     intros Hw Hi Hs cs1.
@@ -157,9 +162,9 @@ Section Delete.
   Qed.
 
   Lemma merge_leaf_left_spec lo hi ks cs j es' :
-    wfc (wf 1 1) lo hi ks cs -> j < length ks -> seg (lob lo ks (S j)) (hib hi ks (S j)) es' ->
+    wfc (wf mn 1) lo hi ks cs -> j < length ks -> seg (lob lo ks (S j)) (hib hi ks (S j)) es' ->
     let cs1 := set_nth (S j) (Leaf es') cs in
-    merge_post (wf 1 1) lo hi ks cs1 (merge_leaf ksz ks cs1 (S j) es').
+    merge_post (wf mn 1) lo hi ks cs1 (merge_leaf ksz ks cs1 (S j) es').
   Proof.
     intros Hw Hj Hs cs1.
     destruct (wfc_at2 _ ks cs lo hi j Hw Hj) as (c1 & c2 & m & H1 & H2 & H3 & H4 & H5 & H6 & H7 & H8).
@@ -181,9 +186,9 @@ Section Delete.
   Qed.
 
   Lemma merge_leaf_right_spec lo hi ks cs es' :
-    wfc (wf 1 1) lo hi ks cs -> 0 < length ks -> seg (lob lo ks 0) (hib hi ks 0) es' ->
+    wfc (wf mn 1) lo hi ks cs -> 0 < length ks -> seg (lob lo ks 0) (hib hi ks 0) es' ->
     let cs1 := set_nth 0 (Leaf es') cs in
-    merge_post (wf 1 1) lo hi ks cs1 (merge_leaf ksz ks cs1 0 es').
+    merge_post (wf mn 1) lo hi ks cs1 (merge_leaf ksz ks cs1 0 es').
   Proof.
     intros Hw Hj Hs cs1.
     destruct (wfc_at2 _ ks cs lo hi 0 Hw Hj) as (c1 & c2 & m & H1 & H2 & H3 & H4 & H5 & H6 & H7 & H8).
@@ -214,10 +219,10 @@ Section Delete.
     end.
 
   Lemma rebalance_leaf_spec lo hi ks cs i es' :
-    wfc (wf 1 1) lo hi ks cs -> i <= length ks -> 1 <= length ks ->
+    wfc (wf mn 1) lo hi ks cs -> i <= length ks -> 1 <= length ks ->
     seg (lob lo ks i) (hib hi ks i) es' ->
     let cs1 := set_nth i (Leaf es') cs in
-    rebalance_post (wf 1 1) lo hi ks cs1 (rebalance_leaf d ksz ks cs1 i es').
+    rebalance_post (wf mn 1) lo hi ks cs1 (rebalance_leaf d ksz ks cs1 i es').
   Proof.
     intros Hw Hi H1 Hs cs1. unfold rebalance_leaf.
     pose proof (borrow_leaf_right_spec lo hi ks cs i es' Hw Hi Hs) as PR. cbv zeta in PR. fold cs1 in PR.
@@ -238,12 +243,12 @@ Section Delete.
 
   (** ** internal level *)
   Lemma borrow_node_left_spec h lo hi ks cs j nks ncs :
-    wfc (wf 1 (S (S h))) lo hi ks cs -> j < length ks ->
-    wfc (wf 1 (S h)) (lob lo ks (S j)) (hib hi ks (S j)) nks ncs ->
+    wfc (wf mn (S (S h))) lo hi ks cs -> j < length ks ->
+    wfc (wf mn (S h)) (lob lo ks (S j)) (hib hi ks (S j)) nks ncs ->
     let cs1 := set_nth (S j) (Node nks ncs) cs in
     match borrow_node_left d ksz ks cs1 (S j) nks ncs with
     | Err e => e = PageOverflow
-    | Ok res => pair_post (wf 1 (S (S h))) lo hi ks cs1 res
+    | Ok res => pair_post (wf mn (S (S h))) lo hi ks cs1 res
     end.
   Proof.
     intros Hw Hj Hs cs1.
@@ -258,7 +263,7 @@ Section Delete.
     destruct (last_opt lcs) as [bc|] eqn:Elc.
     2:{ apply last_opt_none in Elc. subst. cbn in Eh. lia. }
     destruct (last_opt lks) as [bk|] eqn:Elk.
-    2:{ apply last_opt_none in Elk. subst. cbn in Hl1. lia. }
+    2:{ apply last_opt_none in Elk. subst. cbn in Hll. lia. }
     rewrite H3.
     apply last_opt_some in Elc. apply last_opt_some in Elk.
     pose proof (length_removelast lcs) as Hc0. pose proof (length_removelast lks) as Hk0.
@@ -280,12 +285,12 @@ Section Delete.
   Qed.
 
   Lemma borrow_node_right_spec h lo hi ks cs i nks ncs :
-    wfc (wf 1 (S (S h))) lo hi ks cs -> i <= length ks ->
-    wfc (wf 1 (S h)) (lob lo ks i) (hib hi ks i) nks ncs ->
+    wfc (wf mn (S (S h))) lo hi ks cs -> i <= length ks ->
+    wfc (wf mn (S h)) (lob lo ks i) (hib hi ks i) nks ncs ->
     let cs1 := set_nth i (Node nks ncs) cs in
     match borrow_node_right d ksz ks cs1 i nks ncs with
     | Err e => e = PageOverflow
-    | Ok res => pair_post (wf 1 (S (S h))) lo hi ks cs1 res
+    | Ok res => pair_post (wf mn (S (S h))) lo hi ks cs1 res
     end.
   Proof.
     intros Hw Hi Hs cs1.
@@ -301,7 +306,7 @@ Section Delete.
     destruct (half d <? length rcs) eqn:Eh; [|exact I].
     apply Nat.ltb_lt in Eh.
     destruct rcs as [|bc rcs']; [cbn in Eh; lia|].
-    destruct rks as [|bk rks']; [cbn in Hr1; lia|].
+    destruct rks as [|bk rks']; [cbn in Hrl, Eh; lia|].
     rewrite H3.
     wn. wn. cbn [pair_post].
     rewrite set2_set_nth_l by lia.
@@ -321,10 +326,10 @@ Section Delete.
   Qed.
 
   Lemma merge_node_left_spec h lo hi ks cs j nks ncs :
-    wfc (wf 1 (S (S h))) lo hi ks cs -> j < length ks ->
-    wfc (wf 1 (S h)) (lob lo ks (S j)) (hib hi ks (S j)) nks ncs ->
+    wfc (wf mn (S (S h))) lo hi ks cs -> j < length ks ->
+    wfc (wf mn (S h)) (lob lo ks (S j)) (hib hi ks (S j)) nks ncs ->
     let cs1 := set_nth (S j) (Node nks ncs) cs in
-    merge_post (wf 1 (S (S h))) lo hi ks cs1 (merge_node ksz ks cs1 (S j) nks ncs).
+    merge_post (wf mn (S (S h))) lo hi ks cs1 (merge_node ksz ks cs1 (S j) nks ncs).
   Proof.
     intros Hw Hj Hs cs1.
     destruct (wfc_at2 _ ks cs lo hi j Hw Hj) as (c1 & c2 & m & H1 & H2 & H3 & H4 & H5 & H6 & H7 & H8).
@@ -345,10 +350,10 @@ Section Delete.
   Qed.
 
   Lemma merge_node_right_spec h lo hi ks cs nks ncs :
-    wfc (wf 1 (S (S h))) lo hi ks cs -> 0 < length ks ->
-    wfc (wf 1 (S h)) (lob lo ks 0) (hib hi ks 0) nks ncs ->
+    wfc (wf mn (S (S h))) lo hi ks cs -> 0 < length ks ->
+    wfc (wf mn (S h)) (lob lo ks 0) (hib hi ks 0) nks ncs ->
     let cs1 := set_nth 0 (Node nks ncs) cs in
-    merge_post (wf 1 (S (S h))) lo hi ks cs1 (merge_node ksz ks cs1 0 nks ncs).
+    merge_post (wf mn (S (S h))) lo hi ks cs1 (merge_node ksz ks cs1 0 nks ncs).
   Proof.
     intros Hw Hj Hs cs1.
     destruct (wfc_at2 _ ks cs lo hi 0 Hw Hj) as (c1 & c2 & m & H1 & H2 & H3 & H4 & H5 & H6 & H7 & H8).
@@ -376,10 +381,10 @@ Section Delete.
     end.
 
   Lemma rebalance_node_spec h lo hi ks cs i nks ncs :
-    wfc (wf 1 (S (S h))) lo hi ks cs -> i <= length ks -> 1 <= length ks ->
-    wfc (wf 1 (S h)) (lob lo ks i) (hib hi ks i) nks ncs ->
+    wfc (wf mn (S (S h))) lo hi ks cs -> i <= length ks -> 1 <= length ks ->
+    wfc (wf mn (S h)) (lob lo ks i) (hib hi ks i) nks ncs ->
     let cs1 := set_nth i (Node nks ncs) cs in
-    rebalance_node_post (wf 1 (S (S h))) lo hi ks cs1 (rebalance_node d ksz ks cs1 i nks ncs).
+    rebalance_node_post (wf mn (S (S h))) lo hi ks cs1 (rebalance_node d ksz ks cs1 i nks ncs).
   Proof.
     intros Hw Hi H1 Hs cs1. unfold rebalance_node.
     pose proof (borrow_node_right_spec h lo hi ks cs i nks ncs Hw Hi Hs) as PR. cbv zeta in PR. fold cs1 in PR.
@@ -455,15 +460,15 @@ Section Delete.
     | Err e => e = PageOverflow
     | Ok DelNotFound => f (abs t) = None
     | Ok (DelDone t' cont) =>
-      exists ks' cs', t' = Node ks' cs' /\ wfc (wf 1 (S h)) lo hi ks' cs' /\
-                      (cont = false -> 1 <= length ks') /\ f (abs t) = Some (flat_map abs cs')
+      exists ks' cs', t' = Node ks' cs' /\ wfc (wf mn (S h)) lo hi ks' cs' /\
+                      (cont = false -> mn <= length ks') /\ f (abs t) = Some (flat_map abs cs')
     end.
 
   Lemma flat_map_set_nth (cs : list node) i c c' : nth_error cs i = Some c ->
     flat_map abs (set_nth i c' cs) = flat_map abs (firstn i cs) ++ abs c' ++ flat_map abs (skipn (S i) cs).
   Proof. intros _. unfold set_nth. rewrite flat_map_app'. reflexivity. Qed.
 
-  Lemma del_spec k f : local_op k f -> forall h lo hi t, wf 1 (S (S h)) lo hi t -> inb lo hi k ->
+  Lemma del_spec k f : local_op k f -> forall h lo hi t, wf mn (S (S h)) lo hi t -> inb lo hi k ->
     del_post h lo hi t f (del d ksz guard (S (S h)) t f k).
   Proof.
     intros Hf. induction h as [|h IH]; intros lo hi t H Hk.
@@ -474,9 +479,9 @@ Section Delete.
       pose proof (wfc_route _ ks cs lo hi k Hw Hk) as Hrt. fold i in Hrt.
       pose proof (wfc_length _ _ _ _ _ Hw) as Hlen.
       assert (Hl : klt k (flat_map abs (firstn i cs))).
-      { exact (wfc_prefix_klt _ (wf_seg 1 1) ks cs lo hi i k Hw Hi (proj1 Hrt)). }
+      { exact (wfc_prefix_klt _ (wf_seg mn 1) ks cs lo hi i k Hw Hi (proj1 Hrt)). }
       assert (Hg : kgt k (flat_map abs (skipn (S i) cs))).
-      { exact (wfc_suffix_kgt _ (wf_seg 1 1) ks cs lo hi i k Hw Hi (proj2 Hrt)). }
+      { exact (wfc_suffix_kgt _ (wf_seg mn 1) ks cs lo hi i k Hw Hi (proj2 Hrt)). }
       rewrite Hn. apply wf_leaf_view in Hwc as (es & -> & Hes).
       assert (Habs : f (abs (Node ks cs)) =
                      option_map (fun M => flat_map abs (firstn i cs) ++ M ++ flat_map abs (skipn (S i) cs)) (f es)).
@@ -486,20 +491,23 @@ Section Delete.
       destruct (f es) as [es'|] eqn:Ef; [|cbn; exact Habs].
       pose proof (lop_seg _ _ Hf _ _ _ _ Hes Ef) as Hes'.
       wl.
-      destruct (length es' <? half d) eqn:Eu.
-      + assert (length cs <? 2 = false) as -> by (apply Nat.ltb_ge; lia). rewrite andb_false_r.
-        pose proof (rebalance_leaf_spec lo hi ks cs i es' Hw Hi Hk1 Hes') as PR. cbv zeta in PR.
-        destruct (rebalance_leaf d ksz ks (set_nth i (Leaf es') cs) i es') as [[[ks' cs'] merged]|e];
-          cbn [bind]; [|exact PR].
-        cbn [rebalance_post] in PR. destruct PR as (P1 & P2 & P3).
-        wn. cbn [del_post]. exists ks', cs'. split; [reflexivity|]. split; [exact P1|]. split.
-        * intros ->. lia.
-        * rewrite Habs, P2. cbn [option_map]. f_equal. now rewrite (flat_map_set_nth cs i _ _ Hn).
-      + cbn [del_post]. exists ks, (set_nth i (Leaf es') cs). split; [reflexivity|]. split; [|split].
+      assert (Hplain0 : del_post 0 lo hi (Node ks cs) f (Ok (DelDone (Node ks (set_nth i (Leaf es') cs)) false))).
+      { cbn [del_post]. exists ks, (set_nth i (Leaf es') cs). split; [reflexivity|]. split; [|split].
         * specialize (Hr [] [Leaf es']). cbn [app] in Hr. rewrite firstn_skipn in Hr. apply Hr.
           cbn [wfc]. split; auto.
         * intros _. exact Hk1.
-        * rewrite Habs. cbn [option_map]. f_equal. now rewrite (flat_map_set_nth cs i _ _ Hn).
+        * rewrite Habs. cbn [option_map]. f_equal. now rewrite (flat_map_set_nth cs i _ _ Hn). }
+      destruct (length es' <? half d) eqn:Eu; [|exact Hplain0].
+      destruct (guard && (length cs <? 2)) eqn:Eg; [exact Hplain0|].
+      assert (Hk1' : 1 <= length ks).
+      { destruct mn_guard as [E|E]; [lia|]. rewrite E in Eg. cbn [andb] in Eg. apply Nat.ltb_ge in Eg. lia. }
+      pose proof (rebalance_leaf_spec lo hi ks cs i es' Hw Hi Hk1' Hes') as PR. cbv zeta in PR.
+      destruct (rebalance_leaf d ksz ks (set_nth i (Leaf es') cs) i es') as [[[ks' cs'] merged]|e];
+        cbn [bind]; [|exact PR].
+      cbn [rebalance_post] in PR. destruct PR as (P1 & P2 & P3).
+      wn. cbn [del_post]. exists ks', cs'. split; [reflexivity|]. split; [exact P1|]. split.
+      + intros ->. lia.
+      + rewrite Habs, P2. cbn [option_map]. f_equal. now rewrite (flat_map_set_nth cs i _ _ Hn).
     - apply wf_node_view in H as (ks & cs & -> & Hk1 & Hw).
       rewrite del_unfold_S. cbv zeta.
       pose proof (fci_le ks k) as Hi. set (i := fci ks k) in *.
@@ -507,9 +515,9 @@ Section Delete.
       pose proof (wfc_route _ ks cs lo hi k Hw Hk) as Hrt. fold i in Hrt.
       pose proof (wfc_length _ _ _ _ _ Hw) as Hlen.
       assert (Hl : klt k (flat_map abs (firstn i cs))).
-      { exact (wfc_prefix_klt _ (wf_seg 1 (S (S h))) ks cs lo hi i k Hw Hi (proj1 Hrt)). }
+      { exact (wfc_prefix_klt _ (wf_seg mn (S (S h))) ks cs lo hi i k Hw Hi (proj1 Hrt)). }
       assert (Hg : kgt k (flat_map abs (skipn (S i) cs))).
-      { exact (wfc_suffix_kgt _ (wf_seg 1 (S (S h))) ks cs lo hi i k Hw Hi (proj2 Hrt)). }
+      { exact (wfc_suffix_kgt _ (wf_seg mn (S (S h))) ks cs lo hi i k Hw Hi (proj2 Hrt)). }
       rewrite Hn.
       assert (Habs : f (abs (Node ks cs)) =
                      option_map (fun M => flat_map abs (firstn i cs) ++ M ++ flat_map abs (skipn (S i) cs)) (f (abs c))).
@@ -521,7 +529,7 @@ Section Delete.
       + cbn [del_post]. rewrite Habs, IH. reflexivity.
       + destruct IH as (nks & ncs & -> & Q1 & Q2 & Q3).
         pose proof (wfc_length _ _ _ _ _ Q1) as Hln.
-        assert (Hplain : 1 <= length nks ->
+        assert (Hplain : mn <= length nks ->
                   del_post (S h) lo hi (Node ks cs) f (Ok (DelDone (Node ks (set_nth i (Node nks ncs) cs)) false))).
         { intros Hn1. cbn [del_post]. exists ks, (set_nth i (Node nks ncs) cs).
           split; [reflexivity|]. split; [|split].
@@ -531,8 +539,13 @@ Section Delete.
           - rewrite Habs, Q3. cbn [option_map]. f_equal. now rewrite (flat_map_set_nth cs i _ _ Hn). }
         destruct cont.
         * destruct (length ncs <? half d) eqn:Eu.
-          -- assert (length cs <? 2 = false) as -> by (apply Nat.ltb_ge; lia). rewrite andb_false_r.
-             pose proof (rebalance_node_spec h lo hi ks cs i nks ncs Hw Hi Hk1 Q1) as PR. cbv zeta in PR.
+          -- destruct (guard && (length cs <? 2)) eqn:Eg.
+             { (* the guard fires only in a single-child parent, which [mn = 1] excludes *)
+               apply Hplain. apply andb_prop in Eg as [Eg1 Eg2]. apply Nat.ltb_lt in Eg2.
+               destruct mn_guard as [E|_]; [rewrite E in Hk1; lia|]. lia. }
+             assert (Hk1' : 1 <= length ks).
+             { destruct mn_guard as [E|E]; [lia|]. rewrite E in Eg. cbn [andb] in Eg. apply Nat.ltb_ge in Eg. lia. }
+             pose proof (rebalance_node_spec h lo hi ks cs i nks ncs Hw Hi Hk1' Q1) as PR. cbv zeta in PR.
              destruct (rebalance_node d ksz ks (set_nth i (Node nks ncs) cs) i nks ncs) as [[ks' cs']|e];
                cbn [bind]; [|exact PR].
              cbn [rebalance_node_post] in PR. destruct PR as (P1 & P2).
@@ -545,11 +558,11 @@ Section Delete.
   Qed.
 
   (** ** BTreeIndex::delete / delete_specific *)
-  Theorem delete_gen_refines k f t : local_op k f -> WF 1 t ->
+  Theorem delete_gen_refines k f t : local_op k f -> WF mn t ->
     match delete_gen d ksz guard f t k with
     | Err e => e = PageOverflow
     | Ok (t', b) =>
-      WF 1 t' /\
+      WF mn t' /\
       match f (abs (root t)) with
       | None => t' = t /\ b = false
       | Some m' => abs (root t') = m' /\ b = true
